@@ -150,8 +150,8 @@ Qed.
 Theorem parse_wf ts f : parse ts = Some f -> wf_file f.
 Proof.
   unfold parse. destruct (p_header _) as [[h r0]|]; [|discriminate].
-  destruct (p_typedefs (S (length r0)) r0) as [[tds r1]|] eqn:E; [|discriminate].
-  destruct (p_conditions (S (length r1)) r1) as [[cs r2]|]; [|discriminate].
+  destruct (p_typedefs (S (length r0)) (skip_dup_newline r0)) as [[tds r1]|] eqn:E; [|discriminate].
+  destruct (p_conditions (S (length r1)) (skip_dup_newline r1)) as [[cs r2]|]; [|discriminate].
   destruct (skip_opt NEWLINE r2); [|discriminate].
   intros H; inversion H; subst. unfold wf_file; simpl. eapply p_typedefs_wf; eauto.
 Qed.
